@@ -26,9 +26,21 @@ CLAIMED = {
     "C17": (True, "exploration", "DESIGN.md §3 C17",
             "Hook-lowered limit L (1..64 KiB; thorough adds runs at the production 100 MiB): every size within +-3 of every multiple of 256 up to L+512, inbound (valid frame, unterminated filler; three chunkings) and outbound (empty buffer, after small enqueued messages), plus seeded sizes/chunkings and pipelined bursts of small frames. Oracle: accept band / refuse band with Error::BufferOverflow, nothing of a refused message on the transport, connection usable afterwards, bytes consumed before an overflow <= L+256.",
             "size == L-1 is a don't-care (the statement does not say whether the terminator counts). The limit value is set through the cfg(zlink_verif) hook; the comparison sites are the production ones."),
+    "C08": (True, "exploration", "DESIGN.md §3 C08",
+            "Real Server::run over stub listener/sockets/service: every interleaving of arrivals, frame deliveries and closes for 12 two-client shapes (systematic), plus 1e5 / 2e6 seeded worlds of 1..4 clients x 0..5 calls (plain, oneway, error, slow; pipelined or ping-pong) with arbitrary fragmentation, short reads, suspensions and environment events inside seam calls. Oracle: each client's received frames equal the sequential reference execution of the pure service for that client; every frame carries the client's id; each call handled once, in order; connection ids distinct.",
+            "Service is pure and stamps (cid, seq) into every reply, so cross-delivery and reordering are visible in the bytes. Writes eventually complete."),
+    "C09": (True, "fault_enumeration", "DESIGN.md §3 C09",
+            "C08's world with 1..3 healthy and 1..2 faulty clients and an after-the-fault probe connection. Enumerated: 9 fault kinds x 3 positions x every interleaving (to depth 6 quick / 8 thorough environment events) with a healthy client; seeded beyond with several faults per client. Oracle: healthy clients' output equals the reference (and, in a quarter of the runs, is byte-identical to a re-execution without the faulty clients under another schedule); server future still pending; probe connection served; no foreign frames anywhere.",
+            "Fault list is the property's: garbage, truncated frame then EOF, EOF mid-burst, read error, write error from the k-th write, unknown method, wrong parameter types, wrong-shape JSON, oversize (hook-lowered limit). A client that never drains its socket is not in it."),
+    "C10": (True, "exploration", "DESIGN.md §3 C10",
+            "C08's world plus streaming calls answered with a controllable stream (0..4 items with per-item continues flags, ending or never ending), plain calls pipelined before and behind, items released at tape-chosen moments, a write failure at any reply of one client. Oracle: per-client reference including stream items in order with their flags and, once the stream has ended, the replies to the calls behind it; calls behind a never-ending stream owed nothing; after a write failure exactly the frames before it; other clients unaffected.",
+            "Stream items are produced by the environment, so 'other clients are served while a stream is open' is checked as bounded liveness at quiescence."),
+    "C18": (True, "exploration", "DESIGN.md §3 C18",
+            "C08's world with flooders (20..60 pipelined calls) and single callers whose one complete call appears after a tape-chosen number of flooder replies, optional short-lived and streaming clients. Post-run fairness monitor over the recorded order of service entries, call-readable moments, accepts and connection-set changes: no connection served twice while a single caller waits with the set unchanged; at most N x (transitions + 1) other calls overall.",
+            "Waiting party is always a single caller delivered in one piece; read_pending_despite_data is off (a transport that withholds readable bytes makes the call not waiting from the server's point of view)."),
 }
 
-PLANNED = {"C08", "C09", "C10", "C18", "C19", "C20"}
+PLANNED = { "C18", "C19", "C20"}
 
 NOT_BUILT_REASON = "claimed in DESIGN.md but its check is not built yet in this commit"
 
